@@ -296,7 +296,11 @@ func (r *e1run) observe() *obsStep {
 	// all streams become available at the same write
 	for _, s := range m.streams {
 		if s.hasContent() != st.avail {
-			r.add("C04", "streams-availability", "after write %d stream %s hasContent=%v but stream %s hasContent=%v", st.write, s.id, s.hasContent(), m.streams[0].id, st.avail)
+			sig := "streams-availability"
+			if r.faulted {
+				sig += ":after-failed-write"
+			}
+			r.add("C04", sig, "after write %d stream %s hasContent=%v but stream %s hasContent=%v (a Write has failed before=%v)", st.write, s.id, s.hasContent(), m.streams[0].id, st.avail, r.faulted)
 		}
 	}
 	st.pathTable = len(m.server.pathHandlers)
@@ -349,6 +353,14 @@ func (r *e1run) observe() *obsStep {
 			if rr.Status == 200 && rr.Body.Len() > 0 {
 				r.add("C05", "expired-uri-serves-media", "%s left the playlist at observation %d but still returns %d bytes with status 200 after write %d", ui.uri, ui.lastObs, rr.Body.Len(), st.write)
 				r.add("C18", "expired-uri-serves-media", "%s left the playlist but still resolves after write %d", ui.uri, st.write)
+			}
+			// ... and must be gone from the URL table, whatever its handler would answer
+			key := ui.raw
+			if i := strings.IndexByte(key, '?'); i >= 0 {
+				key = key[:i]
+			}
+			if m.server.getPathHandler(key) != nil {
+				r.add("C18", "expired-uri-still-registered", "%s (%s) left the playlist with its segment but is still in the URL table after write %d (status of a GET: %d)", ui.uri, ui.kind, st.write, rr.Status)
 			}
 			ui.gone = true
 		}
